@@ -6,10 +6,13 @@ From HV Require Import Base.Prelude Settings.Pattern Settings.PatternProofs.
 From Coq Require Import Permutation.
 Local Open Scope N_scope.
 
-(* For every history of registrations / re-registrations / deregistrations and every map
+(* [wf_events]: the registrations are settings as RegisterPattern stores them (in-memory ones
+   carry no write interval / file size: [mk_sett_wf]).
+   For every history of registrations / re-registrations / deregistrations and every map
    iteration order, GetBySwampName returns the setting of the most specific registered
    pattern that matches the name (the last registration of a pattern counts). *)
 Theorem C21_most_specific_wins : forall evs order n,
+  wf_events evs ->
   Permutation (run false evs) order ->
   lookup_best order n = spec_lookup evs n.
 Proof. exact lookup_is_spec. Qed.
@@ -18,6 +21,7 @@ Print Assumptions C21_most_specific_wins.
 (* [spec_lookup] is what the property text says: a registered matching pattern at least as
    specific as every other registered matching pattern, or the default when none matches. *)
 Theorem C21_spec_is_most_specific : forall evs n,
+  wf_events evs ->
   (exists p s, last_reg evs p = Some s /\ matches n p = true /\ spec_lookup evs n = s /\
                forall q s', last_reg evs q = Some s' -> matches n q = true -> rank q <= rank p)
   \/ ((forall q, matches n q = true -> last_reg evs q = None) /\ spec_lookup evs n = default_sett).
@@ -27,6 +31,7 @@ Print Assumptions C21_spec_is_most_specific.
 (* The answer depends only on the set of registrations in force, not on the order in which
    they were made nor on the iteration order of the map. *)
 Theorem C21_order_independent : forall evs evs' order order' n,
+  wf_events evs -> wf_events evs' ->
   (forall p, last_reg evs p = last_reg evs' p) ->
   Permutation (run false evs) order -> Permutation (run false evs') order' ->
   lookup_best order n = lookup_best order' n.
@@ -45,6 +50,24 @@ Theorem C21_restart_stable : forall evs n,
   lookup_best (load (save (run false evs))) n = lookup_best (run false evs) n.
 Proof. exact restart_stable. Qed.
 Print Assumptions C21_restart_stable.
+
+(* Restarts may also happen anywhere inside a history (register, restart, register, look up,
+   ...): every lookup is answered as in the history without the restarts. *)
+Theorem C21_restarts_invisible : forall evs order order' n,
+  wf_events evs ->
+  Permutation (run false evs) order ->
+  Permutation (run false (filter (fun e => negb (is_restart e)) evs)) order' ->
+  lookup_best order n = lookup_best order' n.
+Proof. exact restarts_invisible. Qed.
+Print Assumptions C21_restarts_invisible.
+
+(* The lookups of a history are answered from the registrations in force at that moment
+   (C21_most_specific_wins holds for every prefix of a history); in particular a pattern is
+   out of force immediately after its deregistration. *)
+Theorem C21_deregistered_pattern_not_in_force : forall evs p,
+  last_reg (evs ++ [Dereg p]) p = None.
+Proof. exact deregistered_pattern_not_in_force. Qed.
+Print Assumptions C21_deregistered_pattern_not_in_force.
 
 (* Pinned commit: first match in map iteration order - two orders, two answers. *)
 Theorem C21_order_independent_refuted_for_first_match :
